@@ -54,7 +54,9 @@ def tlc_paths(segs, bound, keep=None):
         open(os.path.join(d, "sched.tla"), "w").write(SPEC % cases)
         open(os.path.join(d, "sched.cfg"), "w").write(f"SPECIFICATION Spec\nCONSTANTS\n NT = {len(segs)}\n B = {bound}\n")
         cmd = ["tlc", "-workers", "1", "-noGenerateSpecTE", "-deadlock", "-metadir", os.path.join(d, "meta"), "-dump", "dot,actionlabels", os.path.join(d, "g"), "sched.tla"]
-        p = subprocess.run(cmd, cwd=d, capture_output=True, text=True, timeout=900)
+        # (TLC's own scratch directories go into d as well, which is removed below)
+        env = dict(os.environ, JAVA_TOOL_OPTIONS=(os.environ.get("JAVA_TOOL_OPTIONS", "") + f" -Djava.io.tmpdir={d}").strip())
+        p = subprocess.run(cmd, cwd=d, capture_output=True, text=True, timeout=900, env=env)
         if "Model checking completed. No error has been found" not in p.stdout:
             raise HarnessFault("TLC failed:\n" + p.stdout[-1500:] + p.stderr[-500:])
         m = re.search(r"(\d+) distinct states found", p.stdout)
